@@ -33,6 +33,13 @@ where
     T: PurlShape,
 {
     fn fmt(&self, f: &mut fmt::Formatter<'_>) -> fmt::Result {
+        #[cfg(purl_verif)]
+        if !crate::verif_trace::active(crate::verif_trace::Hook::Fmt) {
+            let s = crate::verif_trace::inside(crate::verif_trace::Hook::Fmt, || self.to_string());
+            crate::verif_trace::log_fmt(self, &s);
+            return f.write_str(&s);
+        }
+
         let package_type = self.package_type().package_type();
 
         if !is_valid_package_type(&package_type) {
